@@ -160,6 +160,14 @@ func OddStartTagSpansLines(n Node, odd int) bool {
 	return false
 }
 
+// CallArgs is the argument list of a component call: show takes a string.
+func CallArgs(comp string) string {
+	if comp == "show" {
+		return "env.E(1)"
+	}
+	return ""
+}
+
 // URLExpr is the Go expression of a sanitised URL attribute value: <a href> takes a templ.SafeURL, every other
 // element's href is an ordinary string attribute.
 func URLExpr(el, u string) string {
@@ -323,6 +331,12 @@ func (p *printer) attrs(as []Attr, depth int) {
 				fmt.Fprintf(&p.sb, "%sstyle={env.T%s()}", sep, num(a.E))
 			} else {
 				fmt.Fprintf(&p.sb, "%sstyle={ env.T%s() }", sep, num(a.E))
+			}
+		case "classkv":
+			if p.v == 1 {
+				fmt.Fprintf(&p.sb, "%sclass={env.K(1), templ.KV(env.K(2), env.C(%s))}", sep, num(a.C))
+			} else {
+				fmt.Fprintf(&p.sb, "%sclass={ env.K(1), templ.KV(env.K(2), env.C(%s)) }", sep, num(a.C))
 			}
 		case "cssclass":
 			if p.v == 1 {
@@ -519,9 +533,9 @@ func (p *printer) node(n Node, depth int) {
 			}
 		}
 		if p.v == 2 || !atOK {
-			p.sb.WriteString("{! " + n.Comp + "() }")
+			p.sb.WriteString("{! " + n.Comp + "(" + CallArgs(n.Comp) + ") }")
 		} else {
-			p.sb.WriteString("@" + n.Comp + "()")
+			p.sb.WriteString("@" + n.Comp + "(" + CallArgs(n.Comp) + ")")
 		}
 		p.ws(n.After, depth)
 	case "callb":
@@ -742,6 +756,7 @@ func Header(pkg string) string {
 		"templ leaf() {\n\t<i>leaf</i>\n}\n\n" +
 		"templ wrap() {\n\t<section>\n\t\t{ children... }\n\t</section>\n}\n\n" +
 		"templ kid() {\n\t<u>kid</u>\n}\n\n" +
+		"templ show(s string) {\n\t<q>{ s }</q>\n}\n\n" +
 		"type boxT struct{}\n\nvar box boxT\n\n" +
 		"templ (b boxT) item() {\n\t<em>m</em>\n}\n\n"
 }
